@@ -219,6 +219,29 @@ func (t *Transport) Closed() bool {
 	return t.closed
 }
 
+// SetStall: the device goes silent once that many bytes (total) have been delivered.
+func (t *Transport) SetStall(total int) {
+	t.mu.Lock()
+	defer t.mu.Unlock()
+	t.StallAfter = total
+}
+
+// SetLoss: once that many bytes (total) have been delivered the transport reports the loss.
+func (t *Transport) SetLoss(total int, k LossKind) {
+	t.mu.Lock()
+	defer t.mu.Unlock()
+	t.LoseAfter = total
+	t.Loss = k
+	t.cond.Broadcast()
+}
+
+// SetWriteErr: the write with that index (counting all writes) and every later one fail.
+func (t *Transport) SetWriteErr(idx int) {
+	t.mu.Lock()
+	defer t.mu.Unlock()
+	t.WriteErrAfter = idx
+}
+
 // Fail makes the transport report the given loss from now on.
 func (t *Transport) Fail(k LossKind) {
 	t.mu.Lock()
